@@ -45,6 +45,15 @@ Theorem C08_200_only_while_current : forall s l s', exec s l = Some s' ->
     exists v, cur s (t_name q) = Some v /\ vtag v = vtag hv /\ oks s' = (rid, q, R200 v (rbase hv q + o) l0) :: oks s.
 Proof. exact ok_only_by_current_read. Qed.
 
+(* ... and over whole runs: every completed 200 of a request rid was produced by a conditional read of rid at some point of the run
+   (after rid started - its handler exists - and not after it ended), and at that point the version answered was the bucket's
+   current version of the archive *)
+Theorem C08_200_current_during : forall ls s, run_labels ls init = Some s ->
+  forall rid q v o l0, In (rid, q, R200 v o l0) (dones s) ->
+  exists ls1 ls2 s1 a hv o', ls = ls1 ++ LTileDo rid :: ls2 /\ run_labels ls1 init = Some s1 /\
+    get_handler rid (handlers s1) = Some (HWaitTile q a hv o' l0) /\ cur s1 (t_name q) = Some v /\ vtag v = vtag hv /\ o = rbase hv q + o'.
+Proof. exact ok_current_during. Qed.
+
 (* the property's second sentence: a replacement that completed before a request began never makes it fail.
    [sa]: any reachable state in which archive n exists and nothing failed is queued for it (e.g. right after it first appeared).
    [ls0]: any history from there - requests for any archive, loop messages, bucket reads, evictions, replacements of n (any number) and of
@@ -104,4 +113,5 @@ Print Assumptions C08_single_version_metadata.
 Print Assumptions C08_invariant.
 Print Assumptions C08_exec_sound.
 Print Assumptions C08_200_only_while_current.
+Print Assumptions C08_200_current_during.
 Print Assumptions C08_old_replacement_harmless.
